@@ -133,7 +133,10 @@ def parent(args):
 def finish(mod, M, dead, tier, seed, nshards, wall, stopped_early):
     prop = mod.PROPERTY
     known = core.load_known(prop)
-    rdir = os.path.join(HERE, 'replays', prop)
+    # evidence/ and replays/ always describe /repo itself; runs against another tree
+    # (VERIF_REPO=<scratch copy with a seeded change>) write next to them, git-ignored
+    alt = os.path.realpath(core.REPO) != '/repo'
+    rdir = os.path.join(HERE, 'replays-alt' if alt else 'replays', prop)
     shutil.rmtree(rdir, ignore_errors=True)
     unlisted = 0
     lines = []
@@ -197,8 +200,9 @@ def finish(mod, M, dead, tier, seed, nshards, wall, stopped_early):
         'wall_s': round(wall, 2),
         'violations': unlisted,
     }
-    os.makedirs(os.path.join(HERE, 'evidence'), exist_ok=True)
-    with open(os.path.join(HERE, 'evidence', prop + '.json'), 'w') as f:
+    edir = os.path.join(HERE, 'evidence-alt' if alt else 'evidence')
+    os.makedirs(edir, exist_ok=True)
+    with open(os.path.join(edir, prop + '.json'), 'w') as f:
         json.dump(ev, f, indent=1, sort_keys=True)
     for ln in lines:
         print(ln)
